@@ -57,6 +57,13 @@ REVIEWED_CALLS = {
 }
 # hand-reviewed sites: (file, function, sink, ordinal among the function's sites of that sink) -> reason
 REVIEWED_SITES = {
+    ("httputils.py", "_serve_traversable", "os.path.isfile", 0):
+        "probe for the packaged infcloud/index.html: literal substitution inside the path of the page being served",
+}
+
+# parameters of public functions nobody in the tree calls that are NOT request text (reviewed)
+TRUSTED_ENTRY_PARAMS = {
+    ("serve_folder", "index_file"): "deprecated plug-in API httputils.serve_folder: index file name chosen by the plug-in, not by a request",
 }
 
 UNK = "unk"
@@ -147,7 +154,7 @@ def merge(a, b):
 
 
 class Program:
-    FILES, BASE, MINFILES, APP = FILES, "radicale/storage", 12, False
+    FILES, BASE, MINFILES, APP, WEB = FILES, "radicale/storage", 12, False, False
 
     def __init__(self, repo):
         self.repo = repo
@@ -206,7 +213,7 @@ class Program:
 
     # ---- whole-program fixpoint
     def run(self):
-        if not self.APP:
+        if not self.APP and not self.WEB:
             self.check_pins()
         prev = None
         for rnd in range(10):
@@ -239,7 +246,7 @@ class Program:
     def analyse(self, fname, qual, fn, closure):
         key = self.key_of(fn)
         st = closure.copy()
-        public = not fn.name.startswith("_")
+        public = not fn.name.startswith("_") and not self.WEB
         flag = self.flag_of(fn)
         for p in self.params(fn):
             if self.APP:
@@ -633,6 +640,19 @@ class Program:
             if r is not None:
                 return r
             return self.generic_call(n, st, ctx, f, dotted, name, args, kw, evargs)
+        if self.WEB:
+            if name in ("files", "resource_filename") and dotted[0] in ("resources", "pkg_resources", "importlib"):
+                evargs()
+                return ("root",)
+            if dotted == ["pathlib", "Path"] and len(args) == 1:
+                return evargs()[0][0]
+            if name == "joinpath" and isinstance(f, ast.Attribute) and len(args) == 1 and not kw:
+                base = self.ev(f.value, st, ctx)
+                v = self.ev(args[0], st, ctx)
+                self.site("joinpath", n, v, st, ctx)
+                return ("join", base, v)
+            if dotted == ["str"] and len(args) == 1:
+                return evargs()[0][0]
         # --- path constructors
         if dotted == ["os", "path", "join"]:
             vals, _ = evargs()
@@ -739,6 +759,8 @@ class Program:
             target = "__init__/3"
         elif self.APP:
             pass
+        elif self.WEB and name in self.funcs and self.funcs[name] and name != "__init__" and dotted[0] not in ("os", "shutil"):
+            target = name
         elif name == "_collection_class":
             target, shift = "__init__/3", 0
         elif name == "__init__" and isinstance(f, ast.Attribute) and isinstance(f.value, ast.Call):
@@ -851,6 +873,18 @@ def coq(t):
     return "(PUnknown %s)" % q("value of kind " + k)
 
 
+
+# ================================================================= the static web pages
+# radicale/httputils.py (serve_resource, _serve_traversable) and radicale/web/*.py: the second place where a request string
+# reaches the file system.  A site is every `X.joinpath(arg)` (and every sink of the storage list); the argument must be a
+# literal, or a value that passed is_safe_filesystem_path_component with NO transformation in between (a call such as
+# unquote(part) after the check is PUnknown).  Parameters nobody in the scanned files passes (the `path` of web.get) are hostile.
+class WebProgram(Program):
+    FILES, BASE, MINFILES, APP, WEB = ["radicale/httputils.py", "radicale/web/*.py"], "radicale", 3, False, True
+
+
+def web_table(repo):
+    return table(repo, WebProgram)
 
 # ================================================================= the application side
 # Every call in radicale/app/*.py of a storage entry point that takes a path or a name, with the way the string was
@@ -1028,8 +1062,8 @@ def simplify(t, calls, depth=0):
     return (k,) + tuple(simplify(x, calls, depth) if isinstance(x, tuple) and x and isinstance(x[0], str) else x for x in t[1:])
 
 
-def table(repo):
-    prog = Program(repo)
+def table(repo, cls=None):
+    prog = (cls or Program)(repo)
     prog.run()
     sites = [(a, b, c, d, simplify(t, prog.calls)) for a, b, c, d, t in prog.sites]
     sites = sorted(set(sites), key=lambda s: (s[0], s[3], s[2], repr(s[4])))
@@ -1044,6 +1078,9 @@ def table(repo):
             continue
         need.add(fx)
         entries[fx] = [simplify(t, prog.calls) for t in prog.calls.get(fx, [])]
+        if not entries[fx]:
+            entries[fx] = [("reviewed", TRUSTED_ENTRY_PARAMS[fx]) if fx in TRUSTED_ENTRY_PARAMS
+                           else unk("parameter of an entry point (no call in the scanned files)")]
         for t in entries[fx]:
             params_of(t, todo)
     calls = []
@@ -1066,6 +1103,13 @@ def generate(repo, outdir):
             "  (%s, %s, %s)" % (q(f), q(x), coq(t)) for f, x, t in calls) + "\n].\n\n"
         text += "Definition sites : list site := [\n" + ";\n".join(
             "  mkSite %s %s %s %d%%N %s" % (q(f), q(fn), q(sink), line, coq(t)) for f, fn, sink, line, t in sites) + "\n].\n"
+        wcalls, wsites = web_table(repo)
+        if len(wsites) < 3:
+            raise Unsupported("only %d web sites found" % len(wsites))
+        text += "\nDefinition web_calls : list (string * string * prov) := [\n" + ";\n".join(
+            "  (%s, %s, %s)" % (q(f), q(x), coq(t)) for f, x, t in wcalls) + "\n].\n\n"
+        text += "Definition web_sites : list site := [\n" + ";\n".join(
+            "  mkSite %s %s %s %d%%N %s" % (q(f), q(fn), q(sink), line, coq(t)) for f, fn, sink, line, t in wsites) + "\n].\n"
         acalls, asites = app_table(repo)
         if len(asites) < 15:
             raise Unsupported("only %d application sites found" % len(asites))
@@ -1077,6 +1121,8 @@ def generate(repo, outdir):
     except (Unsupported, SyntaxError, OSError) as e:
         text = HEADER + "(* translation FAILED: %s *)\nDefinition calls : list (string * string * prov) := [].\n" \
                         "Definition sites : list site := [mkSite \"\" \"\" \"translation failed\" 0%%N (PUnknown \"translation failed\")].\n" \
+                        "Definition web_calls : list (string * string * prov) := [].\n" \
+                        "Definition web_sites : list site := [mkSite \"\" \"\" \"translation failed\" 0%%N (PUnknown \"translation failed\")].\n" \
                         "Definition app_calls : list (string * string * aprov) := [].\n" \
                         "Definition app_sites : list asite := [mkASite \"\" \"\" \"translation failed\" RPath 0%%N (AUnknown \"translation failed\")].\n" \
             % str(e).replace("*)", "* )")
@@ -1111,6 +1157,12 @@ if __name__ == "__main__":
         print("--- calls")
         for f, x, t in calls:
             print(f, x, coq(t))
+        print("=== web")
+        wcalls, wsites = web_table(repo)
+        for s in wsites:
+            print(s[0], s[1], s[2], s[3], coq(s[4]))
+        for f, x, t in wcalls:
+            print("call", f, x, coq(t))
         print("=== app")
         acalls, asites = app_table(repo)
         for s in asites:
